@@ -719,6 +719,61 @@ def _star_dict_calls(tree):
         n.keywords = new
 
 
+def _star_tuple_calls(tree):
+    """``t = (a, b, c)`` whose every read is ``*t`` among the arguments of a
+    call: one local per element, passed positionally (evaluation order and
+    the place where an element expression can raise stay what they
+    were)."""
+    for fn in ast.walk(tree):
+        if not isinstance(fn, (ast.FunctionDef, ast.AsyncFunctionDef)):
+            continue
+        stores, loads, starred = {}, {}, {}
+        for n in ast.walk(fn):
+            if isinstance(n, ast.Name):
+                d = stores if isinstance(n.ctx, (ast.Store, ast.Del)) \
+                    else loads
+                d[n.id] = d.get(n.id, 0) + 1
+            if isinstance(n, ast.Call):
+                for a in n.args:
+                    if isinstance(a, ast.Starred) and isinstance(
+                            a.value, ast.Name):
+                        starred.setdefault(a.value.id, []).append((n, a))
+        for node in ast.walk(fn):
+            for fld in ('body', 'orelse', 'finalbody'):
+                blk = getattr(node, fld, None)
+                if not (isinstance(blk, list) and blk and isinstance(
+                        blk[0], ast.stmt)):
+                    continue
+                for st in list(blk):
+                    if not (isinstance(st, ast.Assign) and len(
+                            st.targets) == 1 and isinstance(
+                                st.targets[0], ast.Name) and isinstance(
+                                    st.value, ast.Tuple) and not any(
+                                        isinstance(e, ast.Starred)
+                                        for e in st.value.elts)):
+                        continue
+                    nm = st.targets[0].id
+                    uses = starred.get(nm, [])
+                    if stores.get(nm) != 1 or not uses or \
+                            loads.get(nm) != len(uses):
+                        continue
+                    temps = ['%s__s%d' % (nm, k)
+                             for k in range(len(st.value.elts))]
+                    new = [ast.copy_location(ast.Assign(
+                        targets=[ast.Name(id=t, ctx=ast.Store())],
+                        value=e), st)
+                        for t, e in zip(temps, st.value.elts)]
+                    j = blk.index(st)
+                    blk[j:j + 1] = new
+                    for c, a in uses:
+                        k = c.args.index(a)
+                        c.args[k:k + 1] = [ast.copy_location(
+                            ast.Name(id=t, ctx=ast.Load()), a)
+                            for t in temps]
+                    for x in new:
+                        ast.fix_missing_locations(x)
+
+
 def _tail_blocks(blk):
     """blk and every nested block whose end is the end of blk."""
     yield blk
@@ -1932,6 +1987,7 @@ def normalise(tree):
     _filtered_iteration(tree)
     _conditional_expressions(tree)
     _star_dict_calls(tree)
+    _star_tuple_calls(tree)
     _tuple_assigns(tree)
     _named_tests(tree)
     _dead_constant_stores(tree)
